@@ -33,7 +33,11 @@ pub open spec fn entry_once(files: Seq<SourceFileAst>, n0: int, entry_path: Opti
 #[verifier::external_body] pub fn string_ne(a: &String, b: &String) -> (r: bool) ensures r == (a@ != b@) { unimplemented!() }
 #[verifier::external_body] pub fn fs_read_to_string(p: &PathBuf) -> (r: Result<String, CompilationError>) ensures r matches Err(e) ==> e is Compile { unimplemented!() }   // fs::read_to_string(..).map_err(..)
 #[verifier::external_body] pub fn parse_ast_file(p: &PathBuf, src: &String) -> (r: Result<AstFile, CompilationError>) { unimplemented!() }
-#[verifier::external_body] pub fn collect_imports(files: &Vec<SourceFileAst>) -> (r: HashSet<String>) { unimplemented!() }
+impl HashSet<String> { pub uninterp spec fn names(&self) -> Set<Seq<char>>; }
+impl<K> HashSet<K> { #[verifier::external_body] pub fn new() -> (r: Self) { unimplemented!() } }
+// the package names the `import` declarations of these files mention (collect_imports: a flat_map over the files; trusted)
+pub uninterp spec fn declared_imports(files: Seq<SourceFileAst>) -> Set<Seq<char>>;
+#[verifier::external_body] pub fn collect_imports(files: &Vec<SourceFileAst>) -> (r: HashSet<String>) ensures r.names() == declared_imports(files@) { unimplemented!() }
 #[verifier::external_body] pub fn entry_is(entry_path: Option<&PathBuf>, path: &PathBuf) -> (r: bool) { unimplemented!() }        // entry_path.is_some_and(|entry| entry == path)
 
 // a package unit is ONE package: every file in it declares the unit's name
